@@ -27,7 +27,7 @@ use noodles_sam::{
 };
 use std::num::NonZero;
 
-const DEFAULT_RPS: usize = 10240;
+pub(crate) const DEFAULT_RPS: usize = 10240;
 
 pub(crate) fn work_dir() -> String {
     // the `--dir` argument of this run (also available as ctx.dir)
@@ -96,7 +96,7 @@ fn gen_cigar(rng: &mut Rng, span: usize) -> Vec<(Kind, usize)> {
     ops
 }
 
-fn gen_case(sub: u64) -> Case {
+pub(crate) fn gen_case(sub: u64) -> Case {
     let mut rng = Rng::new(sub);
     // a quarter of the files aim at several slices per container, which the writer only accepts
     // when all slices of a container have the same reference context: one reference, rare tail
@@ -152,7 +152,7 @@ fn gen_case(sub: u64) -> Case {
 }
 
 /// hand-written boundary cases, always run first. (rid, start, span) with rid None = unmapped tail
-fn corpus_case(k: usize) -> Option<Case> {
+pub(crate) fn corpus_case(k: usize) -> Option<Case> {
     type R = (Option<usize>, usize, usize);
     let m = |r: usize, s: usize, n: usize| -> R { (Some(r), s, n) };
     let u: R = (None, 0, 0);
@@ -202,14 +202,14 @@ fn reference_bases(case: &Case, rid: usize) -> Vec<u8> {
     (0..case.ref_len).map(|_| *rng.pick(b"ACGT")).collect()
 }
 
-fn repository(case: &Case) -> fasta::Repository {
+pub(crate) fn repository(case: &Case) -> fasta::Repository {
     let records: Vec<fasta::Record> = (0..case.nref)
         .map(|rid| fasta::Record::new(fasta::record::Definition::new(format!("sq{rid}"), None), fasta::record::Sequence::from(reference_bases(case, rid))))
         .collect();
     fasta::Repository::new(records)
 }
 
-fn sam_header(case: &Case) -> sam::Header {
+pub(crate) fn sam_header(case: &Case) -> sam::Header {
     use sam::header::record::value::{
         map::{self, header::tag::SORT_ORDER, ReferenceSequence},
         Map,
@@ -221,7 +221,7 @@ fn sam_header(case: &Case) -> sam::Header {
     sam::Header::builder().set_header(hd).set_reference_sequences(refs).build()
 }
 
-fn to_record_buf(case: &Case, r: &GRec) -> RecordBuf {
+pub(crate) fn to_record_buf(case: &Case, r: &GRec) -> RecordBuf {
     let mut rng = Rng::new(case.seed.wrapping_mul(977).wrapping_add(r.serial as u64));
     let mut b = RecordBuf::builder().set_name(format!("r{}", r.serial));
     match r.rid {
@@ -482,7 +482,7 @@ pub(crate) fn fmt_ids(v: &[usize]) -> String {
     if v.is_empty() { "-".into() } else { v.iter().map(|x| x.to_string()).collect::<Vec<_>>().join(",") }
 }
 /// the file as the model sees it: `hdrLen/chLen/size=recs+size=recs|…`
-fn fmt_file(w: &WFile, recs: &[GRec]) -> String {
+pub(crate) fn fmt_file(w: &WFile, recs: &[GRec]) -> String {
     if w.containers.is_empty() {
         return "-".into();
     }
@@ -520,7 +520,7 @@ pub(crate) fn fmt_layout(w: &WFile) -> String {
 }
 
 /// what the index must say, from the walker's layout and the generator's records
-fn truth_entries(w: &WFile, recs: &[GRec]) -> Vec<Entry> {
+pub(crate) fn truth_entries(w: &WFile, recs: &[GRec]) -> Vec<Entry> {
     let mut out = vec![];
     let mut next = 0;
     for c in &w.containers {
@@ -937,6 +937,7 @@ fn check_answer(ctx: &mut Ctx, case: &Case, vname: &str, rid: usize, q: Q, expec
 pub fn run(ctx: &mut Ctx) {
     if let Some(case) = ctx.replay_only.clone() {
         if super::c19_more::replay(ctx, &case) { return; }
+        if super::c19_async::replay(ctx, &case) { return; }
         let k: u64 = case.get(1).and_then(|s| s.parse().ok()).unwrap_or(0);
         match case.first().map(|s| s.as_str()) {
             Some("corpus") => {
@@ -962,4 +963,5 @@ pub fn run(ctx: &mut Ctx) {
         run_case(ctx, &gen_case(ctx.seed.wrapping_mul(1_000_193).wrapping_add(it)), emit);
     }
     super::c19_more::run(ctx);
+    super::c19_async::run(ctx);
 }
